@@ -381,6 +381,8 @@ def c10(tier):
     C.extra["units"] = sorted(P.units.keys())
     sp.sp3(P, C)
     sp.sp5(P, C)
+    # clause 2 (inactive constraint returns the unconstrained fit) needs the solver to run to its optimum
+    sg.sg7(P, C)
     sp.mm1(P, C)
     # the monotonic fit forms F and R through the same slicemultiply / flatten index arithmetic
     gw.iw1(P, C)
@@ -399,6 +401,7 @@ def c11(tier):
     sg.run_sign(P, C)
     # the anchor `if (nH2 == 0) break`: convergence is declared only at an exact solve with nothing pending
     sg.sg5(P, C)
+    sg.sg7(P, C)
     sp.so1(P, C)
     # the constrained set handed back to the solver is one job's list of clipped coordinates, not several jobs' concatenated
     mt.mt9(P, C)
